@@ -222,10 +222,10 @@ async fn run() {
                     for part in line[3..].split(';') {
                         let pt: Vec<&str> = part.split_whitespace().collect();
                         if !pt.is_empty() {
-                            n.write(broker_packet(&pt)).await.unwrap();
+                            let _ = n.write(broker_packet(&pt)).await;
                         }
                     }
-                    n.flush().await.unwrap();
+                    let _ = n.flush().await;
                 }
                 "OK".to_string()
             }
